@@ -154,7 +154,8 @@ class P:
             self.eat()
             return ("deref", self.unary())
         if self.isop("!"):
-            raise Unsupported("! not supported")
+            self.eat()
+            return ("not", self.unary())
         # cast?
         if self.isop("(") and self.peek(1)[0] == "id" and self.peek(1)[1] in TYPEWORDS:
             self.eat()
@@ -245,6 +246,11 @@ class Emit:
         if k == "neg":
             t, ty = self.e(n[1])
             return ("(Z.opp %s)" % t, "Z") if ty == "Z" else ("(Qopp %s)" % to_q(t, ty), "Q")
+        if k == "not":
+            t, ty = self.e(n[1])
+            if ty != "B":
+                raise Unsupported("! on non-boolean")
+            return "(negb %s)" % t, "B"
         if k == "deref":
             if n[1][0] == "var" and n[1][1] in self.derefs:
                 return self.derefs[n[1][1]]
@@ -620,31 +626,35 @@ def translate_text(raw):
     rb = norm(func_body(src, "_rand_interpolation"))
     m = must(r"prng_state\* rng = \(prng_state\*\)params; int k; unsigned int clampJ_i = (.+?); const double \*bufW; "
              r"double sumW, draw; for\(k=0, bufW=W, sumW=0\.0; k<nn; k\+\+, bufW\+\+\) sumW \+= (.+?); "
-             r"draw = (.+?); for\(k=0, bufW=W, sumW=0\.0; k<nn; k\+\+, bufW\+\+\) \{ sumW \+= (.+?); "
+             r"if \((.+?)\) return; draw = (.+?); for\(k=0, bufW=W, sumW=0\.0; k<nn; k\+\+, bufW\+\+\) \{ sumW \+= (.+?); "
              r"if \((.+?)\) break; \} H\[(.+?)\] \+= (.+?); return;", rb, "_rand_interpolation")
     cjt, ty = Emit(envI).e(parse_expr(m.group(1)))
     em = Emit({"clampJ_i": (cjt, "Z"), "sumW": ("sumW", "Q"), "draw": ("draw", "Q"), "k": ("k", "Z")}, macros,
               deref={"bufW": ("w", "Q")}, arrays={"J": ("jbuf", "Z")})
-    w("(* _rand_interpolation: sumW += %s; draw = %s; sumW += %s; if (%s) break; H[%s] += %s *)" % m.groups()[1:])
+    w("(* _rand_interpolation: sumW += %s; if (%s) return; draw = %s; sumW += %s; if (%s) break; H[%s] += %s *)" % m.groups()[1:])
     t, ty = em.e(parse_expr(m.group(2)))
     w("Definition gen_rand_dsum1 (w : Q) : Q := %s." % to_q(t, ty))
-    dr = m.group(3)
+    t, ty = em.e(parse_expr(m.group(3)))
+    if ty != "B":
+        raise Unsupported("rand early-return guard")
+    w("Definition gen_rand_skip (sumW : Q) : bool := %s." % t)
+    dr = m.group(4)
     md = re.fullmatch(r"(.+)\*prng_double\(rng\)", dr)
     if not md:
         raise Unsupported("draw expression %r" % dr)
     t, ty = Emit({"sumW": ("sumW", "Q"), "u": ("u", "Q")}).e(("bin", "*", parse_expr(md.group(1)), ("var", "u")))
     w("Definition gen_rand_draw (sumW u : Q) : Q := %s." % to_q(t, ty))
-    t, ty = em.e(parse_expr(m.group(4)))
-    w("Definition gen_rand_dsum2 (w : Q) : Q := %s." % to_q(t, ty))
     t, ty = em.e(parse_expr(m.group(5)))
+    w("Definition gen_rand_dsum2 (w : Q) : Q := %s." % to_q(t, ty))
+    t, ty = em.e(parse_expr(m.group(6)))
     if ty != "B":
         raise Unsupported("rand break")
     w("Definition gen_rand_break (sumW draw : Q) : bool := %s." % t)
-    t, ty = em.e(parse_expr(m.group(6)))
+    t, ty = em.e(parse_expr(m.group(7)))
     if ty != "Z":
         raise Unsupported("rand index type")
     w("Definition gen_rand_index (jbuf : Z -> Z) (k clampJ i : Z) : Z := %s." % t)
-    t, ty = em.e(parse_expr(m.group(7)))
+    t, ty = em.e(parse_expr(m.group(8)))
     w("Definition gen_rand_incr : Q := %s." % to_q(t, ty))
     meta["rand"] = list(m.groups())
     w("")
